@@ -1139,7 +1139,11 @@ def hash_table_of(ctx, cls_info, method):
                 if tbl not in found:
                     found.append(tbl)
     if len(found) != 1:
-        raise AnalysisError(f"{ctx.fq(fi)}: the algorithm table is not the mapping indexed inside hashes.Hash(...) ({len(found)} candidates)")
+        # not consulted in that form: the table kept under the customary name, whatever its entries look like
+        owner = next((c for c in ctx.repo.mro(cls_info) if "_hash_func" in c.attrs), None)
+        if owner is None:
+            raise AnalysisError(f"{ctx.fq(fi)}: the algorithm table is not the mapping indexed inside hashes.Hash(...) ({len(found)} candidates)")
+        found = [App("attr:_hash_func", (SELF,))]
     tbl = found[0]
     node = fi.node
     if isinstance(tbl, App) and tbl.op.startswith("attr:") and tbl.args and tbl.args[0] in (SELF, Sym("param:cls")):
@@ -1152,3 +1156,74 @@ def hash_table_of(ctx, cls_info, method):
     if dict_pairs(tbl) is None:
         raise AnalysisError(f"{ctx.fq(fi)}: algorithm table not foldable ({tbl!r})"[:240])
     return tbl, node
+
+
+KMS_KEY_KINDS = (("EllipticCurvePrivateKey", 256), ("EllipticCurvePrivateKey", 384), ("EllipticCurvePrivateKey", 521),
+                 ("Ed25519PrivateKey", None), ("Ed448PrivateKey", None), ("RSAPrivateKey", None))
+KMS_ALGORITHMS = ("es-256", "es-384", "es-521", "eddsa", "hash-eddsa")
+
+
+def kms_sign_table(ctx, impl):
+    """Decision table of <KMS>.sign(): for every kind of loaded key and every algorithm string, what the call does - 'raise', or the
+    name of the signing routine whose result is returned together with what it is given as data.  Private helpers of the class are
+    followed, so the table is the same whether key check and routine selection live in helpers, in one helper or in sign() itself.
+    None when the terms cannot be evaluated (the helper-anchored proof rules decide then)."""
+    from sa.teval import teval, Unknown, Raised, Stub
+    sg = impl.methods.get("sign")
+    if sg is None:
+        raise AnalysisError(f"anchor function {impl.fq}.sign vanished")
+    ev = Evaluator(ctx.repo, inline_depth=3, inline_filter=lambda f: f.cls is impl and f.name.startswith("_") and not f.name.startswith("__")
+                   and not f.name.startswith("_create_cose"))
+    outs = ev.outcomes(sg)
+    routines = {n: (lambda *a, n_=n: (n_, a[1] if len(a) > 1 else None)) for n in impl.methods if n.startswith("_create_cose")}
+    terms = [c for o in outs for c in o.conds] + [o.value for o in outs if o.kind == "return"]
+    isi = {s_ for t in terms for s_ in subterms(t) if isinstance(s_, App) and s_.op == "isinstance"}
+    ksz = {s_ for t in terms for s_ in subterms(t) if isinstance(s_, App) and s_.op == "attr:key_size"}
+    isf = {s_ for t in terms for s_ in subterms(t) if isinstance(s_, App) and s_.op in ("meth:is_file", "meth:exists", "call:os.path.isfile", "call:os.path.exists")}
+    table = {}
+    for kind, size in KMS_KEY_KINDS:
+        for alg in KMS_ALGORITHMS:
+            env = {"param:algorithm": alg, "param:data": b"<data>", "__calls__": routines, "__opaque_args__": True}
+            for s_ in isi:
+                env[s_] = kind in repr(s_.args[1])
+                if isinstance(s_.args[0], App):
+                    env[s_.args[0]] = Stub("key")
+            for s_ in ksz:
+                env[s_] = size
+            for s_ in isf:
+                env[s_] = True
+            res = None
+            try:
+                for o in outs:
+                    try:
+                        if not all(bool(teval(c, env)) for c in o.conds):
+                            continue
+                    except Raised:
+                        res = "raise"
+                        break
+                    if o.kind == "raise":
+                        res = "raise"
+                    else:
+                        v = teval(o.value, env)
+                        res = v if isinstance(v, tuple) and v and v[0] in routines else ("?", repr(v)[:60])
+                    break
+            except Raised:
+                res = "raise"
+            except Unknown:
+                return None
+            table[(kind, size, alg)] = res or "none"
+    return table
+
+
+def kms_sign_table_expected():
+    want = {}
+    for kind, size in KMS_KEY_KINDS:
+        for alg in KMS_ALGORITHMS:
+            if kind == "EllipticCurvePrivateKey":
+                want[(kind, size, alg)] = ("_create_cose_es_signature", b"<data>") if alg == f"es-{size}" else "raise"
+            elif kind in ("Ed25519PrivateKey", "Ed448PrivateKey"):
+                want[(kind, size, alg)] = {"eddsa": ("_create_cose_ed_signature", b"<data>"),
+                                           "hash-eddsa": ("_create_cose_ed_prehashed_signature", b"<data>")}.get(alg, "raise")
+            else:
+                want[(kind, size, alg)] = "raise"
+    return want
